@@ -98,7 +98,7 @@ func c16(c *core.Ctx) {
 				continue
 			}
 			for _, a := range core.Accesses(g.Info(), g.Decl.Body, map[*types.Var]bool{swampsF: true}, true) {
-				if a.Form == "method:Delete" || a.Form == "method:LoadAndDelete" || a.Form == "method:Clear" {
+				if a.Form == "method:Delete" || a.Form == "method:LoadAndDelete" || a.Form == "method:CompareAndDelete" || a.Form == "method:Clear" {
 					n++
 					c.Touch(g)
 					rO.Check(g.Key == pkgHydra+".hydra.closeEventCallbackFunction", g.Key+":swamps.Delete", a.Node.Pos(), "close callback", "a live swamp is removed from the map outside the close callback: a second instance can be created while the first is still writing")
